@@ -25,7 +25,8 @@ RULE = ("2 of 3 runs: clock sweep - one bundled tariff x one of the 14 calendar-
         "distinct = (tariff, calendar type, period, start class, day-of-year bucket)")
 PROBES = ["lookups", "near_breakpoint", "season_edge_crossed", "weekday_class_midnight", "year_wrap_crossed", "leap_day",
           "world_runs", "get_prices_start0_later", "get_prices_explicit_start", "demand_charge_query", "energy_cost_checked",
-          "winter_pge", "aware_two_zone_lookup", "explicit_tariff_cost_checked", "price_vector_scribbled", "vector_longer_than_a_year", "host_tz_non_utc", "breakpoint_minute_sweep", "concurrent_callers", "thread_switches"]
+          "winter_pge", "aware_two_zone_lookup", "explicit_tariff_cost_checked", "price_vector_scribbled", "vector_longer_than_a_year", "host_tz_non_utc", "breakpoint_minute_sweep", "concurrent_callers", "thread_switches",
+          "coarse_vector_daily_or_longer", "coarse_vector_monthly_or_longer", "direct_vector_scribbled_and_asked_again"]
 FAULT_DIMENSION = "environment: host time zone (with DST nights), a working directory holding same-named tariff files with other rates; the simulated clock is swept across the calendar"
 REAL_VS_STUB = "real: TimeOfUseTariff + bundled JSON files, Interface.get_prices/get_demand_charge, analysis.energy_cost/demand_charge, Simulator; reference reads the JSON files itself"
 ASSUMPTIONS = ["prices compared exactly (they are copied from the file, never computed)", "costs within 1e-9 relative"]
@@ -88,6 +89,12 @@ def gen(rs, tier):
         # one price vector covering more than a year (the same month/day occurs twice, with different weekday classes)
         period = r.choice([60, 60, 120, 180])
         n = int((366 + r.randint(5, 150)) * 1440 / period)
+    rcv = sub(rs, "coarse_vector")
+    if rcv.random() < 0.1:
+        # coarse price vectors: steps of hours, days, weeks, (28 .. 31)-day months, quarters and years ("all period lengths"); two
+        # consecutive entries then differ in date, weekday class and often season at once
+        period = rcv.choice([90, 240, 720, 1440, 1440, 2880, 10080, 40320, 41760, 43200, 43200, 44640, 44640, 131040, 525600, 527040])
+        n = rcv.randint(3, 60 if period < 100000 else 12)
     return {"seed": rs, "tariff": name, "year": year, "period": period, "n": n, "start_mode": r.choice(["random", "breakpoint", "season_edge", "midnight", "new_year", "leap_day"]),
             "pick": r.randrange(10 ** 6), "second": r.choice([0, 0, 0, 30, 59])}
 
@@ -187,6 +194,44 @@ def check(sc):
             if (d.month, d.day) == (2, 29):
                 out.probe("leap_day")
         out.probe("lookups", n)
+        if period >= 1440:
+            out.probe("coarse_vector_daily_or_longer")
+        if period >= 40320:
+            out.probe("coarse_vector_monthly_or_longer")
+        rs_ = sub(sc["seed"], "scribble")
+        if not out.viol and rs_.random() < (0.25 if n <= 1500 else 0.08):
+            # the caller works on the list it was given (converts to cents, blanks entries, sorts it) and asks again with equal
+            # arguments: the second answer must not have noticed
+            saved = list(got)
+            try:
+                how_ = rs_.choice(["scale", "neg", "clear", "sort"])
+                if how_ == "scale":
+                    for i_ in range(len(got)):
+                        got[i_] = got[i_] * 100
+                elif how_ == "neg":
+                    got[:] = [-1.0 - x_ for x_ in got]
+                elif how_ == "clear":
+                    del got[1:]
+                else:
+                    got.sort(reverse=True)
+                    got.append(-7.0)
+            except (TypeError, AttributeError, ValueError):
+                pass        # (an immutable answer cannot be scribbled on: fine)
+            try:
+                again = list(T.get_tariffs(start, n, period))
+            except Exception as x:
+                from ..driver import classify_exception
+                if classify_exception(x) == "harness":
+                    raise
+                again = None
+                out.add("C17/lookup_raises", "%s: second get_tariffs(%s, %d, %g) after the caller edited the first answer: %s: %s" % (sc["tariff"], start, n, period, type(x).__name__, str(x)[:100]))
+            out.probe("direct_vector_scribbled_and_asked_again")
+            if again is not None and again != saved:
+                k_ = next((i_ for i_ in range(min(len(again), len(saved))) if again[i_] != saved[i_]), min(len(again), len(saved)))
+                out.add("C17/price_after_caller_edit", "%s: get_tariffs(%s, %d, %g) asked twice; the caller edited the first answer in place (%s) and the second answer differs "
+                        "from the first at index %d: %r, was %r (lengths %d / %d)" % (sc["tariff"], start, n, period, how_, k_, again[k_] if k_ < len(again) else None,
+                                                                                  saved[k_] if k_ < len(saved) else None, len(again), len(saved)))
+            got = saved
         end = start + n * dt.timedelta(minutes=period)
         if end.year != start.year:
             out.probe("year_wrap_crossed")
